@@ -395,7 +395,9 @@ func runC06(c *Ctx) error {
 		}
 		files := make([]c06File, n)
 		root := filepath.Join(tmp, fmt.Sprintf("b%d", start))
-		modes := []string{"lib", "f", "d", "p"}
+		// the directory handed to -d is a name, not a pattern: it may hold characters a glob would interpret
+		dDir := []string{"d", "d[v1]", "d*x", "d?"}[(start/batch+1)%4]
+		modes := []string{"lib", "f", dDir, "p"}
 		for i := range files {
 			var tf *tFile
 			if r.Chance(15) {
@@ -433,8 +435,8 @@ func runC06(c *Ctx) error {
 				addV("cli-failure", map[string]interface{}{"args": "-f", "exit": res.Exit, "output": tail(res.Out, 1500), "input": f.in})
 			}
 		}
-		if res := runCLI(cli, root, "-d", "d"); res.Exit != 0 || res.Panic {
-			addV("cli-failure", map[string]interface{}{"args": "-d d", "exit": res.Exit, "output": tail(res.Out, 1500)})
+		if res := runCLI(cli, root, "-d", dDir); res.Exit != 0 || res.Panic {
+			addV("cli-failure", map[string]interface{}{"args": "-d " + dDir, "exit": res.Exit, "output": tail(res.Out, 1500)})
 		}
 		if res := runCLI(cli, root, "-p", "p/*.go"); res.Exit != 0 || res.Panic {
 			addV("cli-failure", map[string]interface{}{"args": "-p p/*.go", "exit": res.Exit, "output": tail(res.Out, 1500)})
